@@ -136,6 +136,14 @@ claim("C16", "DESIGN.md 5 C16",
       "Not decided: equality of the honoured set with what a fresh process reads (needs a model of the file contents: only the order of operations on the file is proved); an external edit DURING a critical section (outside the stated quantifier) can make rewrite reload the table and drop the pending change - "
       "visible in the contract of rewrite (table afterwards: same, newly read, or nil) and described in DESIGN.md; durability without fsync in rewrite (rewriteDescriptionFile syncs, the token store does not).")
 
+claim("C19", "DESIGN.md 5 C19",
+      "group.validGroupName is proved to accept exactly the good names (for all strings: not empty, no backslash, not absolute, no trailing slash, every component non-empty and neither '.' nor '..'), in both directions; "
+      "validUsername is that or empty; webserver.parseGroupName is proved to return only good names or nothing (it returned names containing a backslash: repaired); "
+      "group.getDescriptionFile (both instantiations) hands the file system only paths of the form Directory joined with path.Clean of a ROOTED path plus '.json', so no name can climb out of the groups directory.",
+      "Assumed (trusted contract, stated for rooted arguments only): path.Clean returns a canonical rooted path, leaves canonical paths unchanged and introduces no new bytes; strings.ContainsRune for ASCII; filepath.Join joins; os.Root confines (recordings, static files). "
+      "PARTIAL / not decided: the recording and static-file handlers (os.Root confinement is the operating system's), diskwriter.sanitise (strings.Replacer), the delete-form filename checks, that every entry point validates before use (only the functions named are under contract); "
+      "the trusted clauses about path.Clean are NOT proved (the thorough tier also runs tools/cleancheck, a bounded exhaustive comparison of those clauses with the real path.Clean on all 97656 rooted strings up to length 9 over {a . / \\ 0xC3}: a supporting check of the assumption, labelled bounded, never counted).")
+
 PENDING = "not yet carried by the engine in this build (work in progress; see DESIGN.md section 9 for the order of work)"
-for pid in ["C07", "C14", "C19", "C20"]:
+for pid in ["C07", "C14", "C20"]:
     na(pid, PENDING)
